@@ -11,7 +11,7 @@ EXPLANATION = (
     "StreamId::try_from, keeps the rest of the buffer as payload, and both failures carry H3_DATAGRAM_ERROR; "
     "(c) the reader reports decode failures connection-level. Decides these structural clauses, not the value-level "
     "round trip nor the EncodedDatagram chunk/advance arithmetic.")
-RULES = "C18-a encode header flow; C18-b inverse constants + error code; C18-c reader error routing; C18-d sender uses its own stream id; C18-e header/payload cursor of the encoded buffer (extracted-expression evaluation over small states); shared: varint form tables under C18-a"
+RULES = "C18-a encode header flow; C18-b inverse constants + error code; C18-c reader error routing; C18-d sender uses its own stream id; C18-e header/payload cursor of the encoded buffer (extracted-expression evaluation over small states); shared: varint form tables under C18-a; shared through a proxy: C16-a under C18-b"
 
 DG = "h3_datagram::datagram::Datagram"
 ENC = "h3_datagram::datagram::EncodedDatagram"
@@ -166,3 +166,7 @@ def run(ctx):
     # ---------------- C18-e how the encoded buffer is consumed (chunk/advance patterns)
     shared.header_payload_cursor(ctx, "C18-e", "<h3_datagram::datagram::EncodedDatagram as bytes::buf::buf_impl::Buf>::", "stream_id")
     ctx.assume("semantics of VarInt::encode/size/decode are decided under C16")
+    # the stream id a datagram is attributed to goes through the range-checked constructors (C16-a bounds of from_u64 / TryFrom<u64>)
+    if not getattr(ctx, "nested", False):
+        from rules import C16 as _c16x, shared as _sh
+        _c16x.run(_sh.Proxy(ctx, ("C16-a",), "C18-b"))
